@@ -592,13 +592,28 @@ func ruleGrammar(c *Ctx, r *RuleResult, encName, decName, varintEnc, varintDec s
 
 func findConsts(fn *ssa.Function, match func(in ssa.Instruction) (int64, bool)) []int64 {
 	var out []int64
-	for _, b := range fn.Blocks {
-		for _, in := range b.Instrs {
-			if v, ok := match(in); ok {
-				out = append(out, v)
+	seen := map[*ssa.Function]bool{}
+	var scan func(f *ssa.Function, depth int)
+	scan = func(f *ssa.Function, depth int) {
+		if seen[f] || f.Blocks == nil {
+			return
+		}
+		seen[f] = true
+		for _, b := range f.Blocks {
+			for _, in := range b.Instrs {
+				if v, ok := match(in); ok {
+					out = append(out, v)
+				}
+				// unexported helpers of the same package that the codec calls (bigEndian(buf[:n]))
+				if call, ok := in.(*ssa.Call); ok && depth < 1 {
+					if h := call.Call.StaticCallee(); h != nil && h.Pkg != nil && h.Pkg == fn.Pkg && h.Object() != nil && !h.Object().Exported() && h.Signature.Recv() == nil {
+						scan(h, depth+1)
+					}
+				}
 			}
 		}
 	}
+	scan(fn, 0)
 	return out
 }
 
@@ -648,6 +663,43 @@ func ruleVarint(c *Ctx, r *RuleResult, encName, decName string) {
 						H = P.polyLoose(v.High)
 					}
 				}
+			case *ssa.Call:
+				// copy(buf[a:], tmp[b:]) after binary.BigEndian.PutUint64(tmp[:], x): by the library's contract
+				// tmp[q] = byte(x >> 8*(7-q)), so buf[I] = byte(x >> 8*(7 - (b + I - a))): shift + 8*I = 56 - 8b + 8a
+				if bi, isB := v.Call.Value.(*ssa.Builtin); isB && bi.Name() == "copy" && len(v.Call.Args) == 2 {
+					dst, okD := v.Call.Args[0].(*ssa.Slice)
+					src, okS := v.Call.Args[1].(*ssa.Slice)
+					if !okD || !okS {
+						continue
+					}
+					tmp, isAlloc := src.X.(*ssa.Alloc)
+					if !isAlloc {
+						continue
+					}
+					filled := false
+					for _, ref := range *tmp.Referrers() {
+						if sl, ok := ref.(*ssa.Slice); ok && sl.Low == nil {
+							for _, r2 := range *sl.Referrers() {
+								if pc, ok := r2.(*ssa.Call); ok {
+									if f := pc.Call.StaticCallee(); f != nil && f.String() == "(encoding/binary.bigEndian).PutUint64" && len(pc.Call.Args) == 3 && stripAll(pc.Call.Args[2]) == x {
+										filled = true
+									}
+								}
+							}
+						}
+					}
+					if !filled {
+						continue
+					}
+					a, b := Poly{}, Poly{}
+					if dst.Low != nil {
+						a = P.polyLoose(dst.Low)
+					}
+					if src.Low != nil {
+						b = P.polyLoose(src.Low)
+					}
+					T = constP(56).add(b.scale(8), -1).add(a.scale(8), 1)
+				}
 			case *ssa.Store:
 				ia, ok := v.Addr.(*ssa.IndexAddr)
 				if !ok || !isByte(v.Val.Type()) {
@@ -686,6 +738,66 @@ func ruleVarint(c *Ctx, r *RuleResult, encName, decName string) {
 			}
 		}
 	}
+	// a helper that returns the payload length as  C - (LeadingZeros64(p) >> 3)  of its parameter: the
+	// call is rewritten to that form over one zero-byte atom, so that the relations below read the same
+	zFromHelper := false
+	subst := func(q Poly) Poly {
+		if q == nil {
+			return nil
+		}
+		out := q
+		P.atomsOf(q, func(a *Atom) {
+			if a.kind != aVal {
+				return
+			}
+			call, ok := a.val.(*ssa.Call)
+			if !ok || len(call.Call.Args) != 1 || stripAll(call.Call.Args[0]) != x {
+				return
+			}
+			h := call.Call.StaticCallee()
+			if h == nil || !c.inModule(h) || h.Blocks == nil || len(h.Blocks) != 1 || len(h.Params) != 1 {
+				return
+			}
+			ret, ok := h.Blocks[0].Instrs[len(h.Blocks[0].Instrs)-1].(*ssa.Return)
+			if !ok || len(ret.Results) != 1 {
+				return
+			}
+			HP := NewProver(c, h)
+			rp := HP.polyLoose(ret.Results[0])
+			ms := rp.monos()
+			if len(ms) != 1 || rp[ms[0]] != -1 {
+				return
+			}
+			var za *Atom
+			HP.atomsOf(Poly{ms[0]: 1}, func(b *Atom) { za = b })
+			okZ := false
+			if za != nil && za.kind == aVal {
+				if bo, ok := za.val.(*ssa.BinOp); ok {
+					var cnt ssa.Value
+					if k, isK := constInt(bo.Y); isK && (bo.Op == token.SHR && k == 3 || bo.Op == token.QUO && k == 8) {
+						cnt = bo.X
+					}
+					if lz, ok := cnt.(*ssa.Call); ok {
+						if f := lz.Call.StaticCallee(); f != nil && f.String() == "math/bits.LeadingZeros64" && stripAll(lz.Call.Args[0]) == ssa.Value(h.Params[0]) {
+							okZ = true
+						}
+					}
+				}
+			}
+			if !okZ {
+				return
+			}
+			// call = C - z  with z carried by the helper's own zero-byte value
+			zv := atomP(P.atom(aVal, za.val, nil, 0, true).id)
+			rep := constP(rp[""]).add(zv, -1)
+			coef := out[itoa(a.id)]
+			delete(out, itoa(a.id))
+			out = out.clone().add(rep, coef)
+			zFromHelper = true
+		})
+		return out
+	}
+	H, V0, T = subst(H), subst(V0), subst(T)
 	if H == nil || V0 == nil || T == nil {
 		r.undecided("VARINT: %s: could not find the length (%v), prefix byte (%v) and payload stores (%v) of the multi-byte form", encName, H != nil, V0 != nil, T != nil)
 		return
@@ -697,8 +809,8 @@ func ruleVarint(c *Ctx, r *RuleResult, encName, decName string) {
 		return
 	}
 	P.atomsOf(Poly{hm[0]: 1}, func(a *Atom) { zAtom = a })
-	zOK := false
-	if zAtom != nil && zAtom.kind == aVal {
+	zOK := zFromHelper
+	if zAtom != nil && zAtom.kind == aVal && !zOK {
 		if bo, ok := zAtom.val.(*ssa.BinOp); ok {
 			var cnt ssa.Value
 			switch {
